@@ -8,6 +8,8 @@ import (
 	"fmt"
 	"io"
 	"log/slog"
+	"os"
+	"path/filepath"
 	"runtime"
 	"strings"
 	"sync"
@@ -20,6 +22,7 @@ import (
 	parser "github.com/a-h/templ/parser/v2"
 	"github.com/a-h/templ/zzverif/kernel"
 	"github.com/a-h/templ/zzverif/shim/simhook"
+	"github.com/a-h/templ/zzverif/shim/simos"
 	"github.com/a-h/templ/zzverif/shim/simsync"
 	"github.com/a-h/templ/zzverif/simnet"
 )
@@ -36,7 +39,7 @@ type stubGopls struct {
 }
 
 func (g *stubGopls) DidOpen(ctx context.Context, p *lspp.DidOpenTextDocumentParams) error {
-	g.k.Park("gopls", "didOpen", string(p.TextDocument.URI), nil)
+	g.k.Park("gopls", "didOpen", relURI(string(p.TextDocument.URI)), nil)
 	g.mu.Lock()
 	g.texts[string(p.TextDocument.URI)] = p.TextDocument.Text
 	g.mu.Unlock()
@@ -44,7 +47,7 @@ func (g *stubGopls) DidOpen(ctx context.Context, p *lspp.DidOpenTextDocumentPara
 }
 
 func (g *stubGopls) DidChange(ctx context.Context, p *lspp.DidChangeTextDocumentParams) error {
-	g.k.Park("gopls", "didChange", string(p.TextDocument.URI), nil)
+	g.k.Park("gopls", "didChange", relURI(string(p.TextDocument.URI)), nil)
 	g.mu.Lock()
 	defer g.mu.Unlock()
 	g.changes++
@@ -58,6 +61,23 @@ func (g *stubGopls) DidChange(ctx context.Context, p *lspp.DidChangeTextDocument
 	return nil
 }
 
+// uriBase is the workspace prefix of the run in progress; it may contain a random directory
+// name, which must stay out of the event log.
+var uriBase string
+
+func relURI(u string) string { return strings.TrimPrefix(u, uriBase) }
+
+func (g *stubGopls) Initialize(ctx context.Context, p *lspp.InitializeParams) (*lspp.InitializeResult, error) {
+	return &lspp.InitializeResult{ServerInfo: &lspp.ServerInfo{Name: "stub"}}, nil
+}
+
+func (g *stubGopls) Initialized(ctx context.Context, p *lspp.InitializedParams) error { return nil }
+
+func (g *stubGopls) DidChangeWatchedFiles(ctx context.Context, p *lspp.DidChangeWatchedFilesParams) error {
+	g.k.Park("gopls", "didChangeWatchedFiles", "", nil)
+	return nil
+}
+
 // Symbols is the one request the editor model sends between edits (and cancels).
 func (g *stubGopls) Symbols(ctx context.Context, p *lspp.WorkspaceSymbolParams) ([]lspp.SymbolInformation, error) {
 	g.k.Park("gopls", "symbols", p.Query, nil)
@@ -65,7 +85,7 @@ func (g *stubGopls) Symbols(ctx context.Context, p *lspp.WorkspaceSymbolParams) 
 }
 
 func (g *stubGopls) DidClose(ctx context.Context, p *lspp.DidCloseTextDocumentParams) error {
-	g.k.Park("gopls", "didClose", string(p.TextDocument.URI), nil)
+	g.k.Park("gopls", "didClose", relURI(string(p.TextDocument.URI)), nil)
 	g.mu.Lock()
 	delete(g.texts, string(p.TextDocument.URI))
 	g.mu.Unlock()
@@ -277,7 +297,35 @@ func run(rc *kernel.RunCtx, k *kernel.Kernel) map[string]any {
 	var iomu sync.Mutex
 	ioS := &simnet.IO{K: k, Name: "S", In: &simnet.Queue{}, Out: &simnet.Queue{}, Mu: &iomu}
 	stub := &stubGopls{k: k, texts: map[string]string{}}
-	srv := proxy.NewServer(log, stub, proxy.NewSourceMapCache(), proxy.NewDiagnosticCache(), true)
+	// In a third of the runs the documents live in a workspace on disk: the server reads them when
+	// the editor initialises it (every read is a seam), the editor's buffers differ from what is
+	// on disk (unsaved edits), files are saved, touched by other tools, and reported as changed.
+	onDisk := t.Chance(1, 3, "workspace-on-disk")
+	wsRoot := ""
+	if onDisk {
+		var err error
+		// (a name of fixed length: the path appears in messages, whose sizes are part of the event log)
+		wsRoot = filepath.Join(os.Getenv("VSIM_TMP"), fmt.Sprintf("lspws-%08d", os.Getpid()%100000000))
+		os.RemoveAll(wsRoot)
+		if err = os.MkdirAll(wsRoot, 0o755); err != nil {
+			rc.Fail("harness", "%v", err)
+			return nil
+		}
+		defer os.RemoveAll(wsRoot)
+		os.MkdirAll(filepath.Join(wsRoot, "sub"), 0o755)
+		for _, rel := range []string{"a.templ", "sub/b.templ", "c.templ"} {
+			os.WriteFile(filepath.Join(wsRoot, rel), []byte(genDoc(t)), 0o644)
+		}
+		simos.SetHook(&simos.HookT{Before: func(op, path string) simos.Fault {
+			if op == "ReadFile" && strings.HasPrefix(path, wsRoot) && k.Quiescing.Load() {
+				k.Park("disk:"+strings.TrimPrefix(path, wsRoot), op, "", nil)
+			}
+			return simos.Fault{}
+		}})
+		defer simos.SetHook(nil)
+		k.Count("probe_workspace_on_disk", 1)
+	}
+	srv := proxy.NewServer(log, stub, proxy.NewSourceMapCache(), proxy.NewDiagnosticCache(), !onDisk)
 	_, conn, _ := lspp.NewServer(context.Background(), srv, jsonrpc2.NewStream(ioS), log)
 
 	// lock hand-overs (document store, source map cache, conn) as seams for a random subset of runs
@@ -307,9 +355,14 @@ func run(rc *kernel.RunCtx, k *kernel.Kernel) map[string]any {
 	})
 	defer simhook.SetYield(nil)
 	// the editor has one or two documents d.open; d is the one the current action is about
-	docs := []*docState{{uri: "file:///w/a.templ", goURI: "file:///w/a_templ.go"}}
+	base := "file:///w"
+	if onDisk {
+		base = "file://" + wsRoot
+	}
+	uriBase = base
+	docs := []*docState{{uri: base + "/a.templ", goURI: base + "/a_templ.go"}}
 	if t.Bool("two-documents") {
-		docs = append(docs, &docState{uri: "file:///w/sub/b.templ", goURI: "file:///w/sub/b_templ.go"})
+		docs = append(docs, &docState{uri: base + "/sub/b.templ", goURI: base + "/sub/b_templ.go"})
 	}
 	d := docs[0]
 	var history []string
@@ -505,7 +558,7 @@ func run(rc *kernel.RunCtx, k *kernel.Kernel) map[string]any {
 	checkDoc = func(d *docState) {
 		doc, ok := srv.TemplSource.Get(d.uri)
 		if !d.open {
-			if ok {
+			if ok && !onDisk { // with a workspace on disk the server may hold files nobody has open
 				rc.Fail("C17/closed-document-still-cached", "document closed by the editor is still held by the server")
 			}
 			return
@@ -532,6 +585,40 @@ func run(rc *kernel.RunCtx, k *kernel.Kernel) map[string]any {
 	}
 
 	k.Quiesce()
+	if onDisk {
+		// initialize, wait for the answer (the server reads the workspace meanwhile), initialized
+		ioS.Feed(simnet.EncodeFrame(map[string]any{"jsonrpc": "2.0", "id": "init", "method": "initialize", "params": map[string]any{
+			"processId": 1, "rootUri": base, "capabilities": map[string]any{}, "workspaceFolders": []any{map[string]any{"uri": base, "name": "w"}}}}))
+		outstanding = append(outstanding, "init")
+		for i := 0; i < 5000 && !rc.Failed(); i++ {
+			collect()
+			if len(outstanding) == 0 {
+				break
+			}
+			ps := k.ParkedList()
+			var p *kernel.Parked
+			for _, x := range ps {
+				if x.Name == "rd:S" && ioS.Avail() == 0 {
+					continue
+				}
+				p = x
+				break
+			}
+			if p == nil {
+				break
+			}
+			if p.Name == "rd:S" {
+				k.Run(p, kernel.Decision{N: ioS.Avail()})
+			} else {
+				k.Run(p, kernel.Decision{})
+			}
+		}
+		if len(outstanding) != 0 && !rc.Failed() {
+			rc.Fail("C17/server-stuck", "initialize was never answered")
+		}
+		send("initialized", map[string]any{})
+		history = append(history, "initialize + initialized (workspace "+base+")")
+	}
 	doOpen()
 	if len(docs) > 1 {
 		k.Count("probe_two_documents", 1)
@@ -587,6 +674,23 @@ func run(rc *kernel.RunCtx, k *kernel.Kernel) map[string]any {
 					doRequest()
 				case t.Chance(1, 8, "format"):
 					doFormat()
+				case onDisk && t.Chance(1, 5, "disk-event"):
+					// the file on disk changes (the editor saves its buffer, or another tool rewrites the
+					// file under it) and/or the editor reports the file as changed - possibly late,
+					// possibly for a file whose buffer has unsaved edits
+					path := strings.TrimPrefix(d.uri, "file://")
+					switch t.Choose(3, "disk-event-kind") {
+					case 0:
+						os.WriteFile(path, []byte(d.ref), 0o644)
+						history = append(history, "save "+d.uri[len(d.uri)-7:])
+					case 1:
+						os.WriteFile(path, []byte(genDoc(t)), 0o644)
+						history = append(history, "another tool rewrites "+d.uri[len(d.uri)-7:]+" on disk")
+					}
+					history = append(history, "didChangeWatchedFiles "+d.uri[len(d.uri)-7:])
+					k.Action("editor: workspace/didChangeWatchedFiles")
+					send("workspace/didChangeWatchedFiles", map[string]any{"changes": []any{map[string]any{"uri": d.uri, "type": 2}}})
+					k.Count("fault_watched_file_event", 1)
 				case len(outstanding) > 0 && t.Chance(1, 3, "cancel"):
 					doCancel()
 				default:
